@@ -634,7 +634,7 @@ func compileExprH(pattern string, exactCase bool) string {
 		expr = fmt.Sprintf("^%v$", regexp.QuoteMeta(pattern))
 	}
 	if !exactCase {
-		expr = strings.ToLower(expr)
+		expr = "(?i)" + expr
 	}
 	return expr
 }
